@@ -348,7 +348,25 @@ def run_engine_check(pid, tier, seed, wd):
     mscripts = []
     for i in range(400 if thorough else 70):
         ns = rng.sample(names, 1 if rng.random() < 0.7 else 2)
-        mscripts.append(_ms.random_script(rng, fx, ns, i + 1, 80 if thorough else 45, nkeys=rng.choice([4, 5, 7])))
+        # (conditional and group invalidations included: the bounds hold "as if the removed entries had never
+        # been stored")
+        mscripts.append(_ms.random_script(rng, fx, ns, i + 1, 80 if thorough else 45, nkeys=rng.choice([4, 5, 7]),
+                                          registry=(i % 2 == 0)))
+    if pid == "C04":
+        # a conditional invalidation, a refill up to the limit and a run of overflowing stores: the removed
+        # entries must not count (or linger in the queue) afterwards -- under Random a stale queue position
+        # is hit only by chance, hence the long tail of stores
+        for n in sorted(names):
+            f = fx[n]
+            if not f["cfg"]["limit"] or f["cfg"]["maxmem"] or f["cfg"]["ttl"] or f["hasCif"] or f["hasInv"] or f["isResult"] \
+                    or f.get("corpus") or f.get("sig", "k") != "k" or f["kind"] == "thread":
+                continue
+            lim = f["cfg"]["limit"]
+            for sel in (["1"], [str(lim)], [str(k) for k in range(1, lim + 1)]):
+                ops = [{"op": "call", "f": n, "t": 1, "k": k} for k in range(1, lim + 1)]
+                ops.append({"op": "inv_with", "x": f["cache_name"], "sel": sel})
+                ops += [{"op": "call", "f": n, "t": 1, "k": k} for k in range(lim + 1, lim + 16)]
+                mscripts.append({"id": len(mscripts) + 1, "fixtures": [n], "threads": 1, "ops": ops})
     msp = os.path.join(wd, "macro_scripts.jsonl")
     _ms.write_scripts(msp, mscripts)
     mtr = os.path.join(wd, "macro_traces.ndjson")
